@@ -456,6 +456,12 @@ class Pipeline:
     def _clear_internal_cache(self) -> None:
         clear_cached_properties(self)
 
+    def __setstate__(self, state: dict[str, Any]) -> None:
+        self.__dict__.update(state)
+        # `PipeFunc` does not pickle its (weak) references to the pipelines it is part of
+        for f in self.functions:
+            f._pipelines.add(self)
+
     def __call__(self, __output_name__: OUTPUT_TYPE | None = None, /, **kwargs: Any) -> Any:
         """Call the pipeline for a specific return value.
 
